@@ -3,6 +3,7 @@ import json
 import numpy as np
 
 from harness.proj import to_rat, rat_close, relayout, try_layout
+from checks import binding
 from harness.core import Machinery
 
 LEVEL = "model_checking"
@@ -30,7 +31,7 @@ def _check_case(ctx, metrics, c, variant):
     case = {"obs": c["obs"], "ens": c["ens"], "variant": variant}
     try:
         if variant.get("layout"):
-            (dec, tab), _used = try_layout(metrics.crps, (o2, e2), (relayout(o2, variant["layout"]), relayout(e2, variant["layout"] // 7)))
+            (dec, tab), _used = try_layout(metrics.crps, (o2, e2), (relayout(o2, variant["layout"], containers=True), relayout(e2, variant["layout"] // 7, containers=True)))
         else:
             dec, tab = metrics.crps(o2, e2)
     except Exception as ex:
@@ -86,7 +87,7 @@ def replication(ctx, metrics, c, k):
 
 
 def spec_to_code(ctx, metrics, cfg):
-    res = ctx.tlc("CrpsDump", cfg, timeout=3000, heap="6g")
+    res = ctx.tlc("CrpsDump", cfg, workers=16, timeout=3000, heap="6g")
     if res.violated:
         raise Machinery("Crps.tla violates its contract: %s" % res.violated)
     cases = res.printed()
@@ -97,7 +98,7 @@ def spec_to_code(ctx, metrics, cfg):
         h = hash(json.dumps(c["obs"]) + json.dumps(c["ens"]))
         base = {"shift": 0, "scale": 1.0, "revmem": False, "revfc": False, "nanrow": False}
         _check_case(ctx, metrics, c, base)
-        var = {"shift": [0, -5, 100][h % 3], "scale": [1.0, 0.5, 8.0][(h // 3) % 3],
+        var = {"shift": [0, -5, 100][h % 3], "scale": [1.0, 0.5, 8.0][(h // 3) % 3] * [1.0, 2.0 ** -70, 2.0 ** 40, 2.0 ** -300][(h // 5292) % 4],
                "revmem": bool((h // 9) % 2), "revfc": bool((h // 18) % 2), "nanrow": bool((h // 36) % 3 == 0),
                "layout": (h // 108) % 49}
         _check_case(ctx, metrics, c, var)
@@ -153,10 +154,11 @@ def code_to_spec(ctx, metrics, ncases):
     with open(path, "w") as f:
         for r in recs:
             f.write(json.dumps(r) + "\n")
-    res = ctx.tlc("CrpsTrace", "MC_CrpsTrace.cfg", workers=1, timeout=3000, heap="6g", stack="512m",
+    res = ctx.tlc("CrpsTrace", "MC_CrpsTrace.cfg", timeout=3000, heap="6g", stack="512m",
                   env={"TRACE_FILE": str(path)})
     if not res.tuples("VALIDATED"):
         raise Machinery("CrpsTrace did not complete:\n" + res.out[-2500:])
+    ctx.binding_demo("CrpsTrace", "MC_CrpsTrace.cfg", path, binding.crps, timeout=3000, heap="6g", stack="512m")
     for line in res.tuples("REJECT"):
         parts = line.strip("<>").split(",")
         r = recs[int(parts[1]) - 1]
